@@ -232,6 +232,7 @@ def _replay_limited(model):
                     n += 1
                     if r > best:
                         best, bestx = r, x.copy()
+                    x += 1000.0     # an optimiser may go on perturbing its state vector in place
                     ok = ok and (maxev is None or n <= maxev)
                 except MaximumEvaluationsReached:
                     ok = ok and maxev is not None and n >= maxev
